@@ -711,7 +711,7 @@ func TestVerif_C07_FourOfSeven(t *testing.T) {
 	rapid.Check(t, c07Property(st, 7, 3))
 }
 
-func TestVerif_C07_ZZDebugControl(t *testing.T) {
+func TestDebug_C07_Control(t *testing.T) {
 	if verifkit.EnvInt("VERIF_DEBUG", 0) == 0 {
 		t.Skip("debug only")
 	}
